@@ -221,16 +221,21 @@ def bounded(tier, seed):
     from pyvc import vc as V
 
     b = Bounded()
-    depth = 4 if tier == "quick" else 6
+    # quick: 8 environment steps, depth 4 (8 192 schedules); thorough: the 18-step alphabet at depth 4 (209 952 schedules)
+    # plus the 8-step alphabet at depth 5 (65 536) - 18 steps at depth 6 would be 68 million runs
+    configs = [(False, 4)] if tier == "quick" else [(True, 4), (False, 5)]
     b.rule = ("the real TimeoutWatchdog.watch coroutine is driven step by step (no event loop); at each of its suspension points the "
               "environment does one of: time += {0, [timeout/2,] timeout+1} x pending hooks := {0,1[,2]} x activity {none, now} (bracketed values in the thorough tier); obligations of the "
               "T1 scenario evaluated natively; distinct = schedule; non-trivial = the callback fired or a hook was pending at a wake-up")
-    b.bound = f"<= {depth} suspension points, timeout = 4 ticks"
+    b.bound = "<= " + " / ".join(f"{d} suspension points over {18 if full else 8} environment steps" for full, d in configs) + ", timeout = 4 ticks"
     b.exhaustive = True
     sc = [s for s in SCENARIOS if s.name == "watch.never_while_hook_pending.unrolled"][0]
-    steps = list(itertools.product((0, 2, 5) if tier == "thorough" else (0, 5), (0, 1, 2) if tier == "thorough" else (0, 1), (False, True)))
-    for b0 in (0, 1):
-        for sched in itertools.product(steps, repeat=depth):
+    schedules = []
+    for full, d in configs:
+        steps = list(itertools.product((0, 2, 5) if full else (0, 5), (0, 1, 2) if full else (0, 1), (False, True)))
+        schedules.append(((b0, sched, d) for b0 in (0, 1) for sched in itertools.product(steps, repeat=d)))
+    for b0, sched, depth in itertools.chain(*schedules):
+        if True:
 
             class Script(dict):
                 """values for the scenario's symbols, produced on demand from the schedule"""
@@ -362,3 +367,12 @@ def s_activity(vc):
     vc.ensure("last_activity_is_now", wd.last_activity == clock[0])
     vc.ensure("monotone", wd.last_activity >= la0)
     vc.ensure("frame", And(wd.blocker == b0, vc.eq(ev.flag, f0)))
+
+
+# "A connection with activity within the timeout is not closed" also needs every event the connection handler processes
+# to count as activity: ConnectionHandler.server_event registers activity before anything else, whatever the layer answers.
+# The contract is the one written for C09 (critical section without suspension point, activity registered exactly once
+# for every kind of command); it is discharged here as part of C10 as well.
+from props.C09 import s_server_event as _s_server_event  # noqa: E402
+
+SCENARIOS.append(_s_server_event)
